@@ -203,14 +203,17 @@ def impl_res(c, tmpdir, kind_of, enc):
             try:
                 try:
                     shape = c.get("keep_shape", "pos")
+                    # `keep` is a flag: any truthy / falsy spelling of it
+                    kv = {"int": 1 if c["keep"] else 0, "obj": "yes" if c["keep"] else None,
+                          "float": 0.5 if c["keep"] else 0.0}.get(c.get("keep_spell"), c["keep"])
                     if shape == "kw":
-                        ws = WavStream(arg, keep=c["keep"])
+                        ws = WavStream(arg, keep=kv)
                     elif shape == "allkw":
-                        ws = WavStream(wave_file=arg, keep=c["keep"])
+                        ws = WavStream(wave_file=arg, keep=kv)
                     elif shape == "omit" and not c["keep"]:
                         ws = WavStream(arg)
                     else:
-                        ws = WavStream(arg, c["keep"])
+                        ws = WavStream(arg, kv)
                 except Exception as e:
                     obs["open"] = "error"
                     obs["open_err"] = kind_of(e)
